@@ -4,7 +4,7 @@
    the occupancy split, the serial wrap, and "no made-up value".  The refinement read_pdb (render recs) = denote recs is
    established by correspondence only (see the level note). *)
 From Coq Require Import List Ascii String ZArith QArith Bool Lia.
-From PV Require Import Base.Sx Base.Text Base.Float Base.Group Spec.Hier Spec.PdbSpec Model.AddAtom Model.PdbLex Model.PdbParse Proofs.Decimal Proofs.C01just Proofs.C01line Gen.PdbColumns Spec.PdbColumnsDoc.
+From PV Require Import Base.Sx Base.Text Base.Float Base.Group Spec.Hier Spec.PdbSpec Model.AddAtom Model.PdbLex Model.PdbParse Proofs.Decimal Proofs.C01just Proofs.C01line Proofs.C01group Gen.PdbColumns Spec.PdbColumnsDoc.
 Import ListNotations.
 
 (* 1. inside a model: exactly one chain per chain id, in order of first appearance (and likewise one residue per key, one
@@ -94,6 +94,25 @@ Proof. exact atom_line_read_back. Qed.
 Theorem C01_reader_columns_are_the_documented_columns : col_rows_eqb pdb_lexer_columns documented_columns = true.
 Proof. vm_compute. reflexivity. Qed.
 
+(* 10. reader model: one coordinate record files its atom under the chain id (after the blank-chain rule), the residue key
+       (number after the wrap offset, raw insertion code) and the conformer key, through first-match insert-or-update *)
+Theorem C01_reader_atom_record_is_an_insert dh fo s ln hetero b x y z occ bf :
+  s_cur (step_item dh fo s ln (LAtom hetero b x y z occ bf)) =
+  match atom_event dh s hetero b x y z occ bf with Some e => insert (s_cur s) e | None => s_cur s end.
+Proof. exact (step_atom_cur dh fo s ln hetero b x y z occ bf). Qed.
+
+(* 11. any sequence of valid inserts builds exactly the nested first-appearance partition: one chain per chain id, one residue
+       per (number, insertion code) inside it, one conformer per (name, alternate location) inside that, atoms in file order *)
+Theorem C01_reader_groups_by_first_appearance (es : list event) : Forall event_valid es ->
+  abs_cur (fold_left insert es []) = spec_chains atom (map key_of es).
+Proof. exact (reader_groups_by_first_appearance es). Qed.
+
+(* 12. the record loop of the reader model on a run of coordinate records starting with an empty model: the model being built
+       is the first-appearance partition of the events of those records *)
+Theorem C01_reader_atom_run dh fo (its : list (Z * lexitem)) s : Forall (fun x => is_atom_item (snd x)) its -> s_cur s = [] ->
+  abs_cur (s_cur (run_items dh fo s its)) = spec_chains atom (map key_of (atom_events dh fo s its)).
+Proof. exact (atom_run_from_empty dh fo its s). Qed.
+
 Print Assumptions C01_one_chain_per_id.
 Print Assumptions C01_occupancy_split_adds_up.
 Print Assumptions C01_wrap_continues.
@@ -104,3 +123,6 @@ Print Assumptions C01_unsigned_field_reads_back.
 Print Assumptions C01_signed_field_reads_back.
 Print Assumptions C01_atom_line_read_back.
 Print Assumptions C01_reader_columns_are_the_documented_columns.
+Print Assumptions C01_reader_atom_record_is_an_insert.
+Print Assumptions C01_reader_groups_by_first_appearance.
+Print Assumptions C01_reader_atom_run.
